@@ -494,6 +494,12 @@ func genExpr(r *rng, depth int) *xExpr {
 	case 8:
 		return &xExpr{K: "tag", S: pick(r, []string{"", "t2", "files"}), E: inner()}
 	case 9:
+		if r.chance(40) {
+			// two levels: the outer usage wins over the inner one (and over a member's in a Batch)
+			in := &xExpr{K: "usage", S: pick(r, []string{"inner usage", ""}), E: inner()}
+			mid := pick(r, []*xExpr{in, {K: "sfx", S: "", E: in}, {K: "batch", Es: []*xExpr{in, {K: "usage", S: "member usage", E: &xExpr{K: "plain", Ps: []string{"m"}}}}}})
+			return &xExpr{K: "usage", S: pick(r, []string{"outer usage", "outer usage", ""}), E: mid}
+		}
 		return &xExpr{K: "usage", S: pick(r, []string{"", "usage one", "u2"}), E: inner()}
 	case 10:
 		return &xExpr{K: "nospace", S: pick(r, []string{"", "/", "/=", "*", "é"}), E: inner()}
@@ -570,7 +576,7 @@ func genCtx(r *rng) xCtx {
 
 // values rich in dividers: prefixes of each other, trailing / leading / repeated dividers, empty segments
 func genMultiPartsCase(r *rng) invokeIn {
-	div := pick(r, []string{"/", "=", ",", ":", "::", "ab", ".", "->"})
+	div := pick(r, []string{"/", "=", ",", ":", "::", "ab", ".", "->", "→", "::→", "é", "·", "日"})
 	ds := []string{div}
 	if r.chance(25) {
 		ds = append(ds, pick(r, []string{"=", ",", ":", "/"}))
